@@ -132,3 +132,17 @@ mod test {
         }
     }
 }
+
+#[cfg(toml_verif)]
+pub(crate) mod verif {
+    //! Add-only forwarders to file-private kernels for `crate::verif_hooks`
+    use super::*;
+    use winnow::stream::ContainsToken as _;
+
+    pub(crate) fn unquoted_key_<'i>(input: &mut Input<'i>) -> ModalResult<&'i str> {
+        unquoted_key(input)
+    }
+    pub(crate) fn class_unquoted_char(b: u8) -> bool {
+        UNQUOTED_CHAR.contains_token(b)
+    }
+}
